@@ -10,6 +10,9 @@ python3 -c "import harnesses; open('kani/src/gen.rs','w').write(harnesses.emit_r
 # native replay binary (dev + release) against /repo as it is now
 (cd kani && RUSTUP_TOOLCHAIN=nightly-2025-11-11 cargo build --offline --bin replay --target-dir ../.cache/native >/dev/null 2>&1 || true)
 (cd kani && RUSTUP_TOOLCHAIN=nightly-2025-11-11 cargo build --offline --release --bin replay --target-dir ../.cache/native >/dev/null 2>&1 || true)
+(cd kani && RUSTUP_TOOLCHAIN=nightly-2025-11-11 cargo build --offline --bin mreplay --target-dir ../.cache/native >/dev/null 2>&1 || true)
+# MIR dump of /repo (second engine, mirsym): warms the dependency build of its target dir
+python3 mirsym/mirdump.py /repo .cache/mir-warm.mir .cache/mir-target >/dev/null 2>&1 || true
 # one tiny Kani run to confirm the tool chain works end to end
 ./check C10 --tier quick --no-evidence >/dev/null 2>&1 || true
 echo "setup done"
